@@ -171,9 +171,14 @@ func WorkerMain(eng Engine) error {
 			for r := 0; r < rep; r++ {
 				emit(map[string]any{"started": idx, "seed": seed})
 				rc := newCtx(&job, eng, idx, NewTape(seed), seed, r)
+				keepFull := os.Getenv("VERIF_KEEPFULL") != "" // tools/difflog.py: whole event log per run
+				rc.KeepFull = keepFull
 				res := RunOnce(eng, rc)
 				res.Config = rc.Config
 				res.Head = rc.Head()
+				if keepFull {
+					res.Head = rc.Full()
+				}
 				if res.Violation != nil {
 					res.Tape = rc.Tape.Rec
 				}
